@@ -107,4 +107,13 @@ theorem coalesce_offsets_disjoint (sizes : List Nat) (i j : Nat) (hij : i < j) (
   have := offsets_disjoint sizes i j hij hj
   simpa [List.getD_eq_getElem?_getD] using this
 
+/-- **end of stream is final for a leaf**: once the cursor is past the window's end, `Next` returns
+nothing now and on every later call (the cursor does not move any more) -/
+theorem leaf_end_of_stream_is_final (w : Window) (n : Nat) (cur : Int) (h : cur > w.stop) :
+    ∀ fuel, leafStream w n fuel cur = [] := by
+  intro fuel
+  cases fuel with
+  | zero => rfl
+  | succ k => simp [leafStream, h]
+
 end PromqlVerif.C18
